@@ -676,3 +676,143 @@ package modules
 //@   at call stopModules ghost stopped = stopped + 1
 //@   ensures swapped ==> stopped == 1
 //@   ensures !swapped ==> stopped == 0 && r0 != nil
+
+// ---- C07: tasks (protocol obligations, A-seq; the queue contents themselves are opaque)
+
+//@ func (*Task).prepForQueueing
+//@   requires t != nil && t.module != nil && cntOK(t.module) && t.module.enabled != nil && t.module.enabledAsDependency != nil
+//@   nopanic off
+//@   modifies *
+//@   ensures old(t.canceled) || old(isSet(t.module.stopFlag)) ==> !ok
+
+// a task is entered into a queue only if it is active, and at most once per queue
+//@ func (*Task).Queue
+//@   requires t != nil
+//@   nopanic off
+//@   modifies *
+//@   ghost var prepped bool = false
+//@   ghost var pushes int = 0
+//@   at after (*Task).prepForQueueing ghost prepped = ret0
+//@   at call (*List).PushBack assert prepped && arg0 == taskQueue && asType(arg1, *Task) == t && t.queueElement == nil && pushes == 0
+//@   at call (*List).PushBack ghost pushes = pushes + 1
+//@   at store queueElement assert pushes == 1 && value != nil
+//@   ensures r0 == t
+
+//@ func (*Task).QueuePrioritized
+//@   requires t != nil
+//@   nopanic off
+//@   modifies *
+//@   ghost var prepped bool = false
+//@   ghost var pushes int = 0
+//@   at after (*Task).prepForQueueing ghost prepped = ret0
+//@   at call (*List).PushBack assert prepped && arg0 == prioritizedTaskQueue && asType(arg1, *Task) == t && t.prioritizedQueueElement == nil && pushes == 0
+//@   at call (*List).PushBack ghost pushes = pushes + 1
+//@   at store prioritizedQueueElement assert pushes == 1 && value != nil
+//@   ensures r0 == t
+
+// as soon as possible: to the front of the prioritized queue - inserted if absent, moved if present
+//@ func (*Task).StartASAP
+//@   requires t != nil
+//@   nopanic off
+//@   modifies *
+//@   ghost var prepped bool = false
+//@   at after (*Task).prepForQueueing ghost prepped = ret0
+//@   at call (*List).PushFront assert prepped && arg0 == prioritizedTaskQueue && asType(arg1, *Task) == t && t.prioritizedQueueElement == nil
+//@   at call (*List).MoveToFront assert prepped && arg0 == prioritizedTaskQueue && arg1 == t.prioritizedQueueElement && arg1 != nil
+//@   ensures r0 == t
+
+// cancelling is final: the flag is set and the task's context is cancelled
+//@ func (*Task).Cancel
+//@   requires t != nil
+//@   nopanic off
+//@   modifies *
+//@   ghost var stored bool = false
+//@   at store canceled assert value
+//@   at store canceled ghost stored = true
+//@   at return assert stored
+
+// starting a task: it leaves all queues first; it is not started while it is executing, when it
+// is cancelled or its module stops, or when its context is done; the executing mark is set before
+// the function is spawned (exactly one spawn) and cleared again if the module will not come online
+//@ func (*Task).runWithLocking
+//@   requires t != nil
+//@   nopanic off
+//@   modifies *
+//@   ghost var removed bool = false
+//@   ghost var wasExec bool = false
+//@   ghost var active bool = false
+//@   ghost var marked bool = false
+//@   ghost var added int = 0
+//@   ghost var spawns int = 0
+//@   at call (*Task).removeFromQueues assert arg0 == t
+//@   at after (*Task).removeFromQueues ghost removed = true
+//@   at after (*Task).removeFromQueues ghost wasExec = t.executing
+//@   at after (*Task).isActive ghost active = ret0
+//@   at store executing ghost marked = value
+//@   at call (*WaitGroup).Add assert arg0 == queueWg && arg1 == 1 && marked
+//@   at call (*WaitGroup).Add ghost added = added + 1
+//@   at go (*Task).executeWithLocking assert removed && !wasExec && active && marked && added == 1 && arg0 == t
+//@   at go (*Task).executeWithLocking ghost spawns = spawns + 1
+//@   at return assert spawns == 1 || !marked
+//@   ensures spawns <= 1
+
+// the queue worker waits for the previous task (queueWg) before it takes the next one, takes
+// the front of the prioritized queue if there is one and else the front of the normal queue,
+// removes it from its queue and runs exactly it
+//@ func taskQueueHandler
+//@   nopanic off
+//@   modifies *
+//@   ghost var waited bool = false
+//@   ghost var pf *list.Element = nil
+//@   ghost var nf *list.Element = nil
+//@   ghost var popped *list.Element = nil
+//@   at call (*WaitGroup).Wait assert arg0 == queueWg
+//@   at after (*WaitGroup).Wait ghost waited = true
+//@   at call (*List).Front#0 assert waited && arg0 == prioritizedTaskQueue
+//@   at after (*List).Front#0 ghost pf = ret0
+//@   at call (*List).Front#1 assert pf == nil && arg0 == taskQueue
+//@   at after (*List).Front#1 ghost nf = ret0
+//@   at call (*List).Remove#0 assert arg0 == prioritizedTaskQueue && arg1 == pf && pf != nil
+//@   at call (*List).Remove#0 ghost popped = pf
+//@   at call (*List).Remove#1 assert arg0 == taskQueue && arg1 == nf && nf != nil && pf == nil
+//@   at call (*List).Remove#1 ghost popped = nf
+//@   at call (*Task).runWithLocking assert waited && popped != nil && arg0 == asType(popped.Value, *Task)
+//@   at after (*Task).runWithLocking ghost waited = false
+//@   at select ghost waited = false
+//@   loop 0 invariant true
+//@   loop 1 invariant !waited
+
+// the scheduler: a due task that was already promoted (overtime) is run, otherwise it is promoted
+// to the front of the prioritized queue and marked
+//@ func taskScheduleHandler
+//@   nopanic off
+//@   modifies *
+//@   ghost var ot bool = false
+//@   ghost var front *list.Element = nil
+//@   at after (*List).Front ghost front = ret0
+//@   at store overtime ghost ot = !value
+//@   at call (*Task).runWithLocking assert ot && front != nil && arg0 == asType(front.Value, *Task)
+//@   at call (*Task).StartASAP assert !ot && front != nil && arg0 == asType(front.Value, *Task)
+//@   loop 0 invariant true
+
+// the next wake-up of the scheduler is the execution time of the first entry of the schedule
+//@ func waitUntilNextScheduledTask
+//@   nopanic off
+//@   modifies *
+//@   ghost var fr *list.Element = nil
+//@   at after (*List).Front ghost fr = ret0
+//@   at call time.Until assert fr != nil && arg0.wall == asType(fr.Value, *Task).executeAt.wall && arg0.ext == asType(fr.Value, *Task).executeAt.ext
+
+// schedule insertion: before the first other entry that is due later, else at the end; an
+// entry that is already scheduled is moved, not inserted twice
+//@ func (*Task).addToSchedule
+//@   requires t != nil
+//@   nopanic off
+//@   modifies *
+//@   ghost var before bool = false
+//@   at after (Time).Before ghost before = ret0
+//@   at call (*List).InsertBefore assert before && t.scheduleListElement == nil && arg0 == taskSchedule && asType(arg1, *Task) == t
+//@   at call (*List).MoveBefore assert before && t.scheduleListElement != nil && arg1 == t.scheduleListElement
+//@   at call (*List).PushBack assert t.scheduleListElement == nil && arg0 == taskSchedule && asType(arg1, *Task) == t
+//@   at call (*List).MoveToBack assert t.scheduleListElement != nil && arg1 == t.scheduleListElement
+//@   loop 0 invariant true
